@@ -42,7 +42,12 @@ def run(plan, acts):
                     what, seed = act[1], act[2]
                     rnd = random.Random(seed)
                     stmts = [s for _, s in _sql.schema_statements(schema, rnd, what.get('parts', []))]
-                    stmts += [_sql.insert_statement(schema, r, rnd) for r in what.get('rows', [])]
+                    if what.get('canonical'):
+                        # rows that may reach a build before (or without) their CREATE TABLE statement
+                        stmts += [_sql.insert_statement(schema, r, rnd, bool(nm), True)
+                                  for r, nm in zip(what.get('rows', []), what['named'])]
+                    else:
+                        stmts += [_sql.insert_statement(schema, r, rnd) for r in what.get('rows', [])]
                     if what.get('shuffle'):
                         rnd.shuffle(stmts)
                     ev['rows'] = what.get('rows', [])
@@ -51,6 +56,8 @@ def run(plan, acts):
                     m = loader.build_metamodel(xtuml.IntegerGenerator())
                     worlds.append(new_world(plan, m))
                     ev['g'] = m.id_generator.peek() - 1
+                    if len(act) > 1 and act[1].get('undecl'):
+                        ev['undecl'] = act[1]['undecl']
                 elif act[0] == 'Mutate':
                     w = worlds[act[1] - 1]
                     w.step = k
